@@ -3,7 +3,7 @@
     attested; an undelivered message, a message with consensus, and a message below the floor jail
     nobody -- for every snapshot, every evidence list, every group key, every map order and every
     behaviour of valset.Jail. *)
-From Coq Require Import List ZArith Bool Lia.
+From Coq Require Import List ZArith Bool Lia Permutation.
 From Paloma Require Import Base.Num Cons.Quorum Cons.QuorumProofs Cons.Prune.
 From Paloma Require Gen.C13.
 Import ListNotations.
@@ -46,6 +46,48 @@ Lemma above_floor sn m : below_floor sn m = false -> sn_total sn <= 10 * power s
 Proof.
   intros H. destruct (Z_lt_le_dec (10 * power sn (voters m)) (sn_total sn)) as [L|L]; [|exact L].
   rewrite (below_floor_of_lt _ _ L) in H. discriminate.
+Qed.
+
+(** ** Re-submitted evidence.  Whatever is sent and re-sent, the stored list has one entry per
+    validator, so the share sum the floor (and VerifyEvidence) see counts every attester once. *)
+Lemma stored_evidence_nodup subs : NoDup (voters (msg_of_submissions false false subs)).
+Proof.
+  unfold voters, msg_of_submissions, stored_evidence. cbn [pm_evs].
+  apply (add_evidence_latest subs []). constructor.
+Qed.
+
+Lemma vals_add_in evs e v : In v (map ev_val (add_evidence evs e)) <-> In v (map ev_val evs) \/ v = ev_val e.
+Proof.
+  rewrite vals_add. destruct (existsb (fun x => ev_val x =? ev_val e) evs) eqn:E.
+  - split; [now left|]. intros [H|H]; [exact H|]. subst v.
+    apply existsb_exists in E. destruct E as (x & Hx & Ex). apply Z.eqb_eq in Ex. rewrite <- Ex.
+    now apply in_map.
+  - rewrite in_app_iff. cbn [In]. intuition.
+Qed.
+
+Lemma stored_from_in subs : forall init v,
+  In v (map ev_val (fold_left add_evidence subs init)) <-> In v (map ev_val init) \/ In v (map ev_val subs).
+Proof.
+  induction subs as [|e r IH]; intros init v; cbn [fold_left map In]; [intuition|].
+  rewrite IH, vals_add_in. intuition.
+Qed.
+
+Lemma stored_evidence_members subs v p e :
+  In v (voters (msg_of_submissions p e subs)) <-> In v (map ev_val subs).
+Proof.
+  unfold voters, msg_of_submissions, stored_evidence. cbn [pm_evs]. rewrite stored_from_in. cbn [map In]. intuition.
+Qed.
+
+Lemma power_perm sn a b : Permutation a b -> power sn a = power sn b.
+Proof. intros H. unfold power. apply zsum_perm. now apply Permutation_map. Qed.
+
+Theorem stored_power_is_attested_power sn p e subs :
+  power sn (voters (msg_of_submissions p e subs)) = attested_power sn subs.
+Proof.
+  unfold attested_power, attesters. apply power_perm. apply NoDup_Permutation.
+  - exact (stored_evidence_nodup subs).
+  - apply NoDup_nodup.
+  - intros v. rewrite nodup_In. apply (stored_evidence_members subs v p e).
 Qed.
 
 Section WithKey.
@@ -100,6 +142,19 @@ Section WithKey.
 
   Theorem consensus_calls sn m w : verify sn (pm_evs m) = Winner w -> prune_calls sn m = [].
   Proof. intros H. unfold Prune.prune_calls. destruct (negb (delivered m)); [reflexivity|]. rewrite H. reflexivity. Qed.
+
+  (** The floor over submissions: re-sending evidence never lifts a message over the floor. *)
+  Theorem floor_counts_each_attester_once sn p e subs :
+    10 * attested_power sn subs < sn_total sn -> prune_calls sn (msg_of_submissions p e subs) = [].
+  Proof. intros H. apply ten_percent_floor_calls. now rewrite stored_power_is_attested_power. Qed.
+
+  (** Whoever sent evidence at least once -- first, later, again -- is not handed to Jail. *)
+  Theorem submitter_not_called sn p e subs v :
+    In v (map ev_val subs) -> ~ In v (prune_calls sn (msg_of_submissions p e subs)).
+  Proof.
+    intros Hs Hc. apply prune_calls_sound in Hc. destruct Hc as (_ & _ & _ & _ & Hn & _).
+    apply Hn. now apply stored_evidence_members.
+  Qed.
 
   (** Exactness (so that the soundness theorems are not vacuous): past all the guards, every
       silent snapshot validator is handed to valset.Jail, in snapshot order. *)
@@ -196,3 +251,16 @@ Proof. reflexivity. Qed.
 Example prune_undelivered_jails_nobody :
   prune_calls xkeqb xkey (fun g => g) xsn {| pm_public := false; pm_error := false; pm_evs := [xev 1 0 7; xev 2 0 7] |} = [].
 Proof. reflexivity. Qed.
+
+(** Why ONE entry per validator matters (the shape T insists on): were a re-sent proof appended
+    instead of replacing the first, validator 1's 6 % would be counted twice, the message would
+    clear the floor and the nine silent validators would be handed to Jail -- while with the stored
+    list the code builds, the same submissions jail nobody. *)
+Definition xsn6 : snapshot := {| sn_vals := [(1, 6); (2, 10); (3, 10); (4, 10); (5, 10); (6, 10); (7, 10); (8, 10); (9, 10); (10, 14)]; sn_total := 100 |}.
+
+Example resent_evidence_appended_would_jail :
+  prune_calls xkeqb xkey (fun g => g) xsn6 {| pm_public := true; pm_error := false; pm_evs := [xev 1 0 7; xev 1 0 7] |}
+    = [2; 3; 4; 5; 6; 7; 8; 9; 10] /\
+  attested_power xsn6 [xev 1 0 7; xev 1 0 7] = 6 /\
+  prune_calls xkeqb xkey (fun g => g) xsn6 (msg_of_submissions true false [xev 1 0 7; xev 1 0 7]) = [].
+Proof. repeat split; reflexivity. Qed.
